@@ -41,6 +41,8 @@ pub struct Weights {
     pub change_cipher: u32,
     pub folder_api: u32,
     pub illegal: u32,
+    /// add an external-file attachment (custom field) to an existing secret
+    pub file_attach: u32,
 }
 
 impl Weights {
@@ -50,7 +52,7 @@ impl Weights {
             create_folder: 3, rename_folder: 3, flags: 3, describe: 4, delete_folder: 2,
             file_create: 3, file_update: 2, relock: 3, resign: 2,
             compact: 0, compact_account: 0, change_folder_pw: 0, change_account_pw: 0, change_cipher: 0,
-            folder_api: 0, illegal: 3,
+            folder_api: 0, illegal: 3, file_attach: 0,
         }
     }
     pub fn with_rewrites(mut self) -> Self {
@@ -70,22 +72,22 @@ impl Weights {
         self.file_update = 0;
         self
     }
-    fn list(&self) -> [u32; 22] {
+    fn list(&self) -> [u32; 23] {
         [
             self.create, self.update, self.delete, self.mov, self.archive, self.unarchive,
             self.create_folder, self.rename_folder, self.flags, self.describe, self.delete_folder,
             self.file_create, self.file_update, self.relock, self.resign,
             self.compact, self.compact_account, self.change_folder_pw, self.change_account_pw, self.change_cipher,
-            self.folder_api, self.illegal,
+            self.folder_api, self.illegal, self.file_attach,
         ]
     }
 }
 
 /// Operation classes in the order of `Weights::list`.
-pub const CHOICES: [&str; 22] = [
+pub const CHOICES: [&str; 23] = [
     "create", "update", "delete", "move", "archive", "unarchive", "create_folder", "rename_folder", "flags", "describe", "delete_folder",
     "file_create", "file_update", "relock", "resign", "compact", "compact_account", "change_folder_pw", "change_account_pw", "change_cipher",
-    "folder_api", "illegal",
+    "folder_api", "illegal", "file_attach",
 ];
 
 pub struct Driver {
@@ -207,7 +209,8 @@ impl Driver {
             18 => self.op_change_account_pw(account).await,
             19 => self.op_change_cipher(account).await,
             20 => self.op_folder_api(account).await,
-            _ => self.op_illegal(account).await,
+            21 => self.op_illegal(account).await,
+            _ => self.op_file_attach(account).await,
         };
         let out = match out {
             Some(o) => o,
@@ -542,6 +545,46 @@ impl Driver {
         };
         let _ = std::fs::remove_file(&path);
         Some(StepOutcome { op, kind: "file_create", legal: true, result, touched: vec![f], rewrote: vec![] })
+    }
+
+    /// Attach an external file (a custom field holding a file secret) to a live secret: the
+    /// secret then owns more than one blob.
+    async fn op_file_attach(&mut self, account: &mut LocalAccount) -> Option<StepOutcome> {
+        let live = self.model.live_secrets();
+        if live.is_empty() {
+            return None;
+        }
+        // prefer secrets that already own a blob
+        let with_blob: Vec<(VaultId, SecretId)> = live.iter().copied().filter(|(_, s)| self.file_plain.contains_key(s)).collect();
+        let (f, id) = if !with_blob.is_empty() && self.rng.chance(2, 3) { *self.rng.pick(&with_blob) } else { *self.rng.pick(&live) };
+        let (mut row, _) = account.read_secret(&id, Some(&f)).await.ok()?;
+        let (path, plain) = self.make_file();
+        let att: Secret = match path.clone().try_into() {
+            Ok(s) => s,
+            Err(_) => return None,
+        };
+        let att_meta = {
+            let mut g = Gen::new(&mut self.rng);
+            let m = g.meta_for(&att, "file");
+            self.markers.extend(g.markers);
+            m
+        };
+        row.secret_mut().add_field(sos_vault::secret::SecretRow::new(SecretId::new_v4(), att_meta, att));
+        let op = format!("attach_file(folder={f}, id={id}, bytes={})", plain.len());
+        let meta = row.meta().clone();
+        let r = account.update_secret(&id, meta.clone(), Some(row.secret().clone()), opts(&f)).await;
+        let result = match r {
+            Ok(_) => match account.read_secret(&id, Some(&f)).await {
+                Ok((back, _)) => {
+                    self.model.put(&f, id, meta_json(back.meta()), secret_json(back.secret()));
+                    Ok(())
+                }
+                Err(e) => Err(format!("read back after attaching a file failed: {e}")),
+            },
+            Err(e) => Err(format!("{e}")),
+        };
+        let _ = std::fs::remove_file(&path);
+        Some(StepOutcome { op, kind: "file_attach", legal: true, result, touched: vec![f], rewrote: vec![] })
     }
 
     async fn op_file_update(&mut self, account: &mut LocalAccount) -> Option<StepOutcome> {
